@@ -55,6 +55,7 @@ def check_unit(case, rec):
     base_arrays = [A.make_array(s, [n_cells]) for s in case["arrays"]]
     sig = "%s|%s" % (cmd, "n%d" % len(base_arrays))
     st0, r0 = A.run_command(cmd, base_arrays, case["params"])
+    tol = 1e-5 if any(sp["dtype"] == "float32" for sp in case["arrays"]) else 1e-9
     fails = []
     rec.label("cmd:" + cmd)
     if st0 == "ok":
@@ -75,7 +76,7 @@ def check_unit(case, rec):
         elif st0 == "ok":
             if not isinstance(r1, numpy.ndarray) or r1.shape != r0.shape:
                 fails.append(Failure(sig + "|permute:shape", "%r" % (getattr(r1, "shape", None),)))
-            elif not U.result_equal(r1, r0[p], 1e-9):
+            elif not U.result_equal(r1, r0[p], tol):
                 fails.append(Failure(sig + "|permute:value", "cmd(perm x) != perm cmd(x) for perm %r" % (perm,)))
             if perm != sorted(perm):
                 nontrivial = True
@@ -94,7 +95,7 @@ def check_unit(case, rec):
         if not isinstance(r2, numpy.ndarray) or list(r2.shape) != list(shape):
             fails.append(Failure("%s|reshape:%s:shape" % (sig, cls), "input shape %r, result shape %r" % (shape, getattr(r2, "shape", None))))
             break
-        if not U.result_equal(r2, r0.reshape(shape), 1e-9):
+        if not U.result_equal(r2, r0.reshape(shape), tol):
             fails.append(Failure("%s|reshape:%s:value" % (sig, cls), "cmd(reshape x) != reshape cmd(x) for shape %r" % (shape,)))
             break
         if min(shape) > 1:
@@ -111,7 +112,7 @@ def check_unit(case, rec):
             if not isinstance(r3, numpy.ndarray) or list(r3.shape) != list(shape)[::-1]:
                 fails.append(Failure("%s|transpose:%s:shape" % (sig, cls), "input shape %r, result shape %r" % (shape[::-1], getattr(r3, "shape", None))))
                 break
-            if not U.result_equal(r3, r2.T, 1e-9):
+            if not U.result_equal(r3, r2.T, tol):
                 fails.append(Failure("%s|transpose:%s:value" % (sig, cls), "cmd(x.T) != cmd(x).T for shape %r" % (shape,)))
                 break
     if st0 == "ok" and nontrivial and (cmd not in R.NARY or len(base_arrays) >= 2):
@@ -122,7 +123,7 @@ def check_unit(case, rec):
 
 @st.composite
 def perm_case(draw):
-    case = draw(G.unit_case(CMDS, max_rank=1, max_cells=24, two_distinct=True))
+    case = draw(G.unit_case(CMDS, max_rank=1, max_cells=24, two_distinct=True, dtypes=("float64", "int64", "float64", "int64", "float32", "int32")))
     n = len(case["arrays"][0]["data"])
     case["perm"] = list(draw(st.permutations(list(range(n)))))
     case["shape"] = [n]
